@@ -264,6 +264,41 @@ def _keywordise_factory(root):
     return xf
 
 
+_NOHOIST = {"super", "isinstance", "len", "enumerate", "zip", "range", "reversed", "iter", "next", "sorted", "list", "tuple", "set", "dict", "str", "int", "float", "print", "min", "max", "sum", "abs", "getattr", "hasattr"}
+
+
+def _hoist_args(src):
+    """`y = f(g(x), z)` rewritten as `_h1 = g(x); y = f(_h1, z)` for statement-level calls whose
+    first argument is a call or a subscript (an "extract variable" refactoring everywhere)."""
+    import ast as _ast
+    t = _ast.parse(src)
+    cnt = [0]
+
+    def do_block(b):
+        i = 0
+        while i < len(b):
+            st = b[i]
+            call = st.value if isinstance(st, (_ast.Assign, _ast.Expr)) and isinstance(st.value, _ast.Call) else None
+            if call is not None and call.args and isinstance(call.args[0], (_ast.Call, _ast.Subscript)) and not (isinstance(call.func, _ast.Name) and call.func.id in _NOHOIST):
+                cnt[0] += 1
+                nm = f"_h{cnt[0]}"
+                b.insert(i, _ast.Assign(targets=[_ast.Name(id=nm, ctx=_ast.Store())], value=call.args[0]))
+                call.args[0] = _ast.Name(id=nm, ctx=_ast.Load())
+                i += 1
+            i += 1
+
+    for n in _ast.walk(t):
+        if isinstance(n, (_ast.FunctionDef, _ast.AsyncFunctionDef, _ast.For, _ast.While, _ast.If, _ast.With, _ast.Try)):
+            for field in ("body", "orelse", "finalbody"):
+                b = getattr(n, field, None)
+                if isinstance(b, list) and b and isinstance(b[0], _ast.stmt):
+                    do_block(b)
+    _ast.fix_missing_locations(t)
+    out = _ast.unparse(t) + "\n"
+    compile(out, "<hoisted>", "exec")
+    return out
+
+
 def run_xform(args):
     prop, root, base_sig, name, fn = args
     base = Tree(root)
@@ -291,7 +326,8 @@ def run_variants(prop, root, base_keys, only_controls):
         extra = [run_reformat((prop, root, base_keys)), run_rename((prop, root, base_sig)), run_flip((prop, root, base_sig)),
                  run_xform((prop, root, base_sig, "whole-tree-invert-ifs", _invert_ifs)),
                  run_xform((prop, root, base_sig, "whole-tree-add-logging", _add_logging)),
-                 run_xform((prop, root, base_sig, "whole-tree-keyword-arguments", _keywordise_factory(root)))]
+                 run_xform((prop, root, base_sig, "whole-tree-keyword-arguments", _keywordise_factory(root))),
+                 run_xform((prop, root, base_sig, "whole-tree-extract-variable", _hoist_args))]
     else:
         extra = []
     return extra + _run_variant_jobs(jobs)
